@@ -8,7 +8,8 @@ From Verif Require Import Base.Int64 Pbf.Tree Pbf.Model Pbf.Spec Pbf.ProofsIndep
 Import ListNotations.
 Open Scope Z_scope.
 
-(* 1. For EVERY message tree m (valid encoding or not), every incoming decoder state st (whatever
+(* 1. For EVERY message tree m (valid encoding or not; the model speaks for the implementation on
+      well-typed trees only, see Pbf/Tree.v), every incoming decoder state st (whatever
       earlier blocks left in the cached iterators) and every configuration c (all 8 skip-flag
       combinations, arbitrary predicates per element type): if the unfiltered scan of the block
       succeeds with objs, the configured scan succeeds with exactly the subsequence of objs made
@@ -27,7 +28,9 @@ Theorem C08_state_independent : forall c st1 st2 m, scan_result c st1 m = scan_r
 Proof. exact scan_result_state_independent. Qed.
 Print Assumptions C08_state_independent.
 
-(* 3. the reset applied to a rejected way/relation/node gives back the value of a fresh one *)
+(* 3. the reset applied to a rejected way/relation/node gives back the value of a fresh one
+      (ways and relations are modelled BY VALUE, so this only restates the definition of the reset:
+      it says nothing about Go memory; see 5 for what is and is not proved about memory) *)
 Theorem C08_reset_is_fresh : (forall w, reset_way w = way0) /\ (forall r, reset_rel r = rel0).
 Proof. split; reflexivity. Qed.
 Print Assumptions C08_reset_is_fresh.
@@ -51,7 +54,20 @@ Example C08_witness :
   /\ scan_result c dstate0 m = Ok [ORel (mkRel 9 info0 [] [mkMem 1 5 []])].
 Proof. vm_compute. split; reflexivity. Qed.
 
-(* 5. returned_objects_stable, in the explicit heap semantics of the dense-node tag slices
+(* 5. FULL CLAUSE of the property: "the objects returned are never modified afterwards", i.e. for every
+      object o handed to the consumer and every later step of the scanner (later elements of the same
+      block, later blocks decoded by the same worker with reused iterators / buffers / string table,
+      rejected elements whose memory is reused), every field of o — Tags, Nodes, Members, strings —
+      keeps the value it had when it was returned.
+      PROVED (hence _partial): only the part of Go memory that is appended to in place, the Tags
+      slices of dense nodes inside one extractDenseNodes call, "returned" = appended to dec.q.
+      MISSING in Coq: way/relation Tags / Nodes / Members (always freshly made in the source;
+      modelled by value, so the clause cannot even be stated for them), strings and string-table /
+      dec.data reuse across blocks, anything after the hand-over to the consumer.  Those parts are
+      checked at run time only, by a GO-SIDE oracle (deep snapshots at return time, a consumer
+      that writes into what it was given, re-comparison at end of scan; harness/cmd/c08 `stable`),
+      which is part of the trusted base.
+      The proved statement, in the explicit heap semantics of the dense-node tag slices
       (Pbf/Arena.v: backing arrays = slots, n.Tags = (slot, len, cap), make / in-place append /
       reallocating append / [:0] as the Go code performs them, the accepted node handed over and the
       rejected node's array reused): from any heap state satisfying the invariant (working slot not
@@ -59,11 +75,11 @@ Proof. vm_compute. split; reflexivity. Qed.
       accept/reject pattern, dec.q has only grown and the value of every object that was already in
       dec.q is unchanged; the invariant holds again (so the statement applies from every later
       moment too: an object is stable from the moment it is appended). *)
-Theorem C08_returned_objects_stable : forall c p ids a a',
+Theorem C08_returned_objects_stable_partial : forall c p ids a a',
   Inv a -> extract_loop_a c p ids a = Ok a' ->
   (exists news, a_q a' = a_q a ++ news) /\ view (a_ar a') (a_q a) = view (a_ar a) (a_q a) /\ Inv a'.
 Proof. exact returned_objects_stable. Qed.
-Print Assumptions C08_returned_objects_stable.
+Print Assumptions C08_returned_objects_stable_partial.
 
 (* the heap run refines the pure model of Pbf/Model.v: same loop result, and dec.q read through
    the heap is the pure dec.q *)
